@@ -8,8 +8,9 @@ import os
 REPO = os.environ.get('VERIF_DEV_REPO') or '/repo'
 
 REFERENCE = {'source': 'deep', 'lookupForeign': 'deep', 'lookupWritesInput': True,
-             'addFieldsTop': 'shallow', 'unwindDoc': 'deep', 'samplePops': True,
-             'facetSharesInput': True, 'outStores': 'deep'}
+             'addFieldsTop': 'shallow', 'unwindDoc': 'deep', 'samplePops': False,
+             'facetSharesInput': False, 'literal': 'deep', 'constArray': 'deep',
+             'outStores': 'deep'}
 
 
 def _funcs(path):
@@ -44,6 +45,28 @@ def _copy_of(fn, var):
     return 'none'
 
 
+def _returned_copy(ret):
+    """how a `return <expr>` hands out its value: deep (copy.deepcopy(x)) / shallow / none"""
+    v = ret.value
+    if isinstance(v, ast.Call):
+        f = ast.unparse(v.func)
+        if f in ('copy.deepcopy', 'deepcopy'):
+            return 'deep'
+        if f in ('dict', 'list', 'copy.copy'):
+            return 'shallow'
+    return 'none'
+
+
+def _branch_return(fn, marker):
+    """the `return` inside the `if` of fn whose test mentions `marker`"""
+    for n in ast.walk(fn):
+        if isinstance(n, ast.If) and marker in ast.unparse(n.test):
+            for m in n.body:
+                if isinstance(m, ast.Return):
+                    return m
+    return None
+
+
 def extract():
     agg = _funcs(os.path.join(REPO, 'mongomock', 'aggregate.py'))
     col = _funcs(os.path.join(REPO, 'mongomock', 'collection.py'))
@@ -64,10 +87,26 @@ def extract():
     deep = [n for n in _call_nodes(uw, 'copy.deepcopy') if n.args and ast.unparse(n.args[0]) == 'doc']
     # both places that build a new document (empty array with preserve…, one per element)
     d['unwindDoc'] = 'deep' if len(deep) >= 2 else _copy_of(uw, 'doc') if not deep else 'mixed'
-    d['samplePops'] = 'options.pop' in _calls(agg['_handle_sample_stage'])
+    sm = agg['_handle_sample_stage']
+    # any call that edits the option dict in place
+    d['samplePops'] = any(c in ('options.pop', 'options.popitem', 'options.clear',
+                                'options.update', 'options.setdefault', 'options.__delitem__')
+                          for c in _calls(sm)) or any(
+        isinstance(n, ast.Delete) for n in ast.walk(sm)) or any(
+        isinstance(n, (ast.Assign, ast.AugAssign)) and any(
+            isinstance(t, ast.Subscript) and ast.unparse(t.value) == 'options'
+            for t in (n.targets if isinstance(n, ast.Assign) else [n.target]))
+        for n in ast.walk(sm))
     fc = agg['_handle_facet_stage']
     pp = _call_nodes(fc, 'process_pipeline')
-    d['facetSharesInput'] = bool(pp) and all(ast.unparse(n.args[0]) == 'in_collection' for n in pp)
+    # every sub-pipeline must be started on `copy.deepcopy(in_collection)`, inside the loop
+    d['facetSharesInput'] = not (bool(pp) and all(
+        ast.unparse(n.args[0]) in ('copy.deepcopy(in_collection)', 'deepcopy(in_collection)')
+        for n in pp))
+    lit = _branch_return(agg['_handle_projection_operator'], "'$literal'")
+    d['literal'] = _returned_copy(lit) if lit is not None else 'none'
+    arr = _branch_return(agg['_parse_basic_expression'], 'isinstance(expression, list)')
+    d['constArray'] = _returned_copy(arr) if arr is not None else 'none'
     out = agg['_handle_out_stage']
     d['outStores'] = 'deep' if 'out_collection.insert_many' in _calls(out) else 'none'
     return d
